@@ -7,6 +7,7 @@ EXTENDS TagAuth, TLCExt
 WNames == <<"W_AuthTrue", "W_MutualTrue", "W_NtagTrue", "W_FalseWrongKey", "W_FalseTamper", "W_ReadData",
             "W_ReadNoneTamper", "W_SwapDetected", "W_ProtectAuth", "W_ProtectOther", "W_WriteOk",
             "W_WriteRefused", "W_ReplayStale", "W_NtagReplayFools", "W_NdefData", "W_NdefNoneTamper", "W_MutualReplayFools", "W_WriteNeedsAuth", "W_BadCountAuth", "W_BadCountRead", "W_BadCountProtect",
+            "W_NdefCached", "W_NdefUnauthForged", "W_NdefReadAgain",
             "W_TypeError", "W_AttributeError", "W_NdefTypeError">>
 WHolds(n) == CASE n = "W_AuthTrue" -> W_AuthTrue [] n = "W_MutualTrue" -> W_MutualTrue
                [] n = "W_NtagTrue" -> W_NtagTrue [] n = "W_FalseWrongKey" -> W_FalseWrongKey
@@ -19,6 +20,8 @@ WHolds(n) == CASE n = "W_AuthTrue" -> W_AuthTrue [] n = "W_MutualTrue" -> W_Mutu
                [] n = "W_WriteNeedsAuth" -> W_WriteNeedsAuth
                [] n = "W_BadCountAuth" -> W_BadCountAuth [] n = "W_BadCountRead" -> W_BadCountRead
                [] n = "W_BadCountProtect" -> W_BadCountProtect
+               [] n = "W_NdefCached" -> W_NdefCached [] n = "W_NdefUnauthForged" -> W_NdefUnauthForged
+               [] n = "W_NdefReadAgain" -> W_NdefReadAgain
                [] n = "W_NdefData" -> W_NdefData [] n = "W_NdefNoneTamper" -> W_NdefNoneTamper
                [] n = "W_TypeError" -> W_TypeError [] n = "W_AttributeError" -> W_AttributeError
                [] n = "W_NdefTypeError" -> W_NdefTypeError
